@@ -1,214 +1,318 @@
 /-
-  Model of nbt/encode.go — tree level: `Encoder.Encode`, `getTagType`, `getTagTypeByType`, `marshal`,
-  `writeValue`, `writeTag`, `writeListHeader`, for the value universe that mirrors the decoder's dynamic tree
-  plus typed slices of scalars, `RawMessage`, `struct{}` and one fixed struct type with a `RawMessage` field.
-  (Structs with tags, embedding, pointers and arrays are a later work package: extend `GoType`/`GoVal`.)
+  Model of nbt/encode.go over the Go value universe of `GoMC.Model.GoVal`:
+  `Encoder.Encode`, `marshal`, `writeValue`, `getTagType`, `getTagTypeByType`, `writeTag`,
+  `writeListHeader`, `isEmptyValue`, `intValue` — function by function, as repaired by the `fix:` commits
+  (unsigned scalars written; strings / names / keys over 32767 bytes refused; `[]any` of bytes written element
+  by element; list elements through `marshal`, all of the list's tag; a slice of Marshalers is a list; a nil
+  pointer is encoded as the zero value it could point to, without `Set`; `Encode(nil)` is an error; byte arrays
+  copied element by element; float32 bits kept; pointer-receiver Marshalers found on values).
 
-  The sink is a `bytes.Buffer` (writes never fail); an error return is `Res.err` (the partial output is not
-  modelled), a Go panic is `Res.panic`. Map entries are written in the order given (Go's order is arbitrary:
-  the correspondence compares emitted documents as trees).
+  The sink is a `bytes.Buffer` (writes never fail): the result is the bytes written, `Res.err` for a non-nil
+  error (partial output not modelled) or `Res.panic`. Nothing here writes to the argument: after the repairs the
+  encoder has no `Set` left, which is the model-level content of "Encode does not modify v".
+  Map entries are written in the order of the association list (Go's order is arbitrary; the correspondence
+  compares documents as trees).
 
-  The code modelled is the repaired one: unsigned 16/32/64-bit scalars are written; strings, root names and
-  keys longer than 32767 bytes are an error; `[]any` typed as a byte array is written element by element;
-  list elements are written through `marshal` and must all have the list's element tag; a slice whose first
-  element is a `Marshaler` is a list.
+  Recursion is on `fuel`, one unit per nested call (`getTagType` of an element / pointee / interface content,
+  `marshal` of an element / field / entry); `GoVal.encFuel v` is always enough (`Lemmas/NBTTyped`).
+  Running out of fuel is `Res.err`.
+
+  `StringifiedMessage` is a parameter (`SnbtCarrier`): its `TagType`, `MarshalNBT`, `UnmarshalNBT` are modelled
+  by the SNBT work package (`Model/SNBTParse`, `Model/SNBTWrite`) and plugged in by the driver.
 -/
-import GoMC.Basic.Core
-namespace GoMC.Model.NBTEnc
+import GoMC.Model.TypeInfo
+namespace GoMC.Model.Go
 open GoMC
 
-/-- static Go types of the universe -/
-inductive GoType where
-  | bool | i8 | i16 | i32 | i64 | u8 | u16 | u32 | u64 | int | uint | f32 | f64 | str
-  | any                      -- interface{}
-  | raw                      -- nbt.RawMessage
-  | mapAny                   -- map[string]any
-  | unit                     -- struct{}
-  | st1                      -- struct{ R nbt.RawMessage `nbt:"r"` }
-  | slice (elem : GoType)
-deriving Repr, Inhabited, BEq
-
-/-- Go values (an `any` holding `v` is `v` itself; a nil interface is `nil`) -/
-inductive GoVal where
-  | bool (b : Bool)
-  | i8 (v : BitVec 8) | i16 (v : BitVec 16) | i32 (v : BitVec 32) | i64 (v : BitVec 64)
-  | u8 (v : BitVec 8) | u16 (v : BitVec 16) | u32 (v : BitVec 32) | u64 (v : BitVec 64)
-  | int (v : BitVec 64) | uint (v : BitVec 64)
-  | f32 (bits : BitVec 32) | f64 (bits : BitVec 64)
-  | str (s : Bytes)
-  | nil
-  | raw (tag : Byte) (data : Bytes)
-  | slice (elem : GoType) (xs : List GoVal)
-  | map (kvs : List (Bytes × GoVal))
-  | unit
-  | st1 (r : GoVal)
-deriving Repr, Inhabited
+/-- `nbt.StringifiedMessage` as seen by the binary codec -/
+structure SnbtCarrier where
+  tagType : Bytes → Byte
+  marshal : Bytes → Res Bytes
+  unmarshal : Byte → Rd Bytes
 
 def beN (k : Nat) (n : Nat) : Bytes := (List.range k).reverse.map fun i => BitVec.ofNat 8 (n / 256 ^ i)
 
+/-- low `8k` bits of an integer (`int16(x)`, `int32(x)`, `byte(x)` before writing) -/
+def wrapN (k : Nat) (i : Int) : Nat := (i % (256 ^ k : Int)).toNat
+
 /-- `getTagTypeByType` -/
 def tagOfType : GoType → Byte
-  | .bool | .i8 | .u8 => 1
-  | .i16 | .u16 => 2
-  | .i32 | .u32 => 3
+  | .bool => 1
+  | .int .i8 | .int .u8 => 1
+  | .int .i16 | .int .u16 => 2
+  | .int .i32 | .int .u32 => 3
+  | .int .i64 | .int .u64 => 4
   | .f32 => 5
-  | .i64 | .u64 => 4
   | .f64 => 6
-  | .str => 8
-  | .raw | .mapAny | .unit | .st1 => 10      -- Struct, Map
-  | _ => 0                                   -- Int, Uint, Interface, Slice
+  | .str | .snbt => 8                       -- StringifiedMessage is a string type
+  | .struct _ _ | .map _ | .raw | .dyn => 10
+  | _ => 0                                  -- Int, Uint, Interface, Pointer, Slice, Array
 
-def isRaw : GoVal → Bool
-  | .raw _ _ => true
+/-- byte / int / long elements make typed arrays -/
+def arrTag (t : Byte) : Byte :=
+  if t = 1 then 7 else if t = 3 then 11 else if t = 4 then 12 else 9
+
+/-- `TagType()` of a carrier value -/
+def carrierTag (cx : SnbtCarrier) : GoVal → Byte
+  | .raw t _ => t
+  | .snbt s => cx.tagType s
+  | .dyn d => d.tag
+  | _ => 0
+
+/-- `MarshalNBT` of a carrier value -/
+def carrierMarshal (cx : SnbtCarrier) : GoVal → Res Bytes
+  | .raw _ d => .ok d
+  | .snbt s => cx.marshal s
+  | .dyn d => DynBT.marshal d
+  | _ => .panic
+
+/-- `getTagType`: the tag and the value it was found on (interfaces unwrapped, pointers followed, a nil
+pointer replaced by a fresh zero value; a carrier — found on the value or on a pointer to it — stops the walk) -/
+def getTagType (cx : SnbtCarrier) : Nat → GoVal → Byte × GoVal
+  | 0, v => (0, v)
+  | f + 1, v =>
+    match v with
+    | .iface (some x) => getTagType cx f x
+    | .ptr e p =>
+      let x := p.getD e.zero
+      if x.isCarrier then (carrierTag cx x, x) else getTagType cx f x     -- *T is a Marshaler when T is a carrier
+    | .raw _ _ | .snbt _ | .dyn _ => (carrierTag cx v, v)
+    | .slice e _ xs | .array e xs =>
+      match xs with
+      | x :: _ =>
+        let (t, r) := getTagType cx f x
+        if r.isCarrier then (9, v) else (arrTag t, v)
+      | [] => (arrTag (tagOfType e), v)
+    | _ => (tagOfType v.typeOf, v)
+
+/-- `isEmptyValue` -/
+def isEmptyValue : GoVal → Bool
+  | .slice _ _ xs | .array _ xs => xs.isEmpty
+  | .map _ _ kvs => kvs.isEmpty
+  | .str s | .snbt s => s.isEmpty
+  | .bool b => !b
+  | .int _ v => v == 0
+  | .f32 b => b.toNat % 2 ^ 31 == 0          -- v.Float() == 0: +0 and −0
+  | .f64 b => b.toNat % 2 ^ 63 == 0
+  | .iface p | .ptr _ p => p.isNone
   | _ => false
 
-/-- `getTagType` (interfaces already unwrapped; `Marshaler` → its `TagType()`) -/
-partial def getTagType : GoVal → Byte
-  | .bool _ | .i8 _ | .u8 _ => 1
-  | .i16 _ | .u16 _ => 2
-  | .i32 _ | .u32 _ => 3
-  | .i64 _ | .u64 _ => 4
-  | .f32 _ => 5
-  | .f64 _ => 6
-  | .str _ => 8
-  | .int _ | .uint _ | .nil => 0
-  | .raw t _ => t
-  | .map _ | .unit | .st1 _ => 10
-  | .slice elem xs =>
-    match xs with
-    | x :: _ =>
-      if isRaw x then 9 else
-      match getTagType x with
-      | 1 => 7 | 3 => 11 | 4 => 12 | _ => 9
-    | [] =>
-      match tagOfType elem with
-      | 1 => 7 | 3 => 11 | 4 => 12 | _ => 9
+/-- the walk along `field.index` in the struct loop of `writeValue`; `none` = a nil embedded pointer on the
+way (`continue FieldLoop`) -/
+def walkEnc : List Nat → GoVal → Option GoVal
+  | [], v => some v
+  | i :: is, v =>
+    let s : Option GoVal := match v with
+      | .ptr _ none => none
+      | .ptr _ (some x) => some x
+      | x => some x
+    match s with
+    | some (.struct _ _ fs) => (fs[i]?).bind (walkEnc is)
+    | _ => none
 
-/-- integer kinds as Go's `int64(elem.Int())` / `int64(elem.Uint())` -/
-def intOf : GoVal → Option Int
-  | .i8 v => some v.toInt | .i16 v => some v.toInt | .i32 v => some v.toInt | .i64 v => some v.toInt
-  | .int v => some v.toInt
-  | .u8 v => some v.toNat | .u16 v => some v.toNat | .u32 v => some v.toNat
-  | .u64 v => some (BitVec.ofNat 64 v.toNat).toInt | .uint v => some v.toInt
+/-- `intValue` -/
+def intValue : GoVal → Option Int
+  | .int _ v => some v
   | _ => none
 
-def wrap (k : Nat) (i : Int) : Nat := (i % (256 ^ k : Int)).toNat
-
-/-- `float32(val.Float())`: the round trip through float64 turns a signalling NaN into a quiet one -/
-def quiet32 (b : BitVec 32) : BitVec 32 :=
-  if (b.toNat / 2 ^ 23) % 256 = 255 ∧ b.toNat % 2 ^ 23 ≠ 0 then b ||| 0x00400000#32 else b
+/-- `for elem.Kind() == reflect.Interface { elem = elem.Elem() }` -/
+def unwrapIface : Nat → GoVal → GoVal
+  | f + 1, .iface (some x) => unwrapIface f x
+  | _, v => v
 
 def writeTag (tag : Byte) (name : Bytes) : Res Bytes :=
   if name.length > 32767 then .err else .ok (tag :: beN 2 name.length ++ name)
 
-def mapM' {α β} (f : α → Res β) : List α → Res (List β)
+def resMapM {α β} (f : α → Res β) : List α → Res (List β)
   | [] => .ok []
-  | x :: xs => do
-    let y ← f x
-    let ys ← mapM' f xs
-    pure (y :: ys)
+  | x :: xs =>
+    match f x with
+    | .ok y =>
+      match resMapM f xs with
+      | .ok ys => .ok (y :: ys)
+      | .err => .err
+      | .panic => .panic
+    | .err => .err
+    | .panic => .panic
+
+/-- one element of a TagByteArray written from a slice whose static element type is not bool/int8/uint8 -/
+def byteOfElem (x : GoVal) : Res Byte :=
+  match unwrapIface 64 x with
+  | .bool b => .ok (if b then 1 else 0)
+  | .int _ v => .ok (BitVec.ofNat 8 (wrapN 1 v))
+  | _ => .err
+
+/-- one element of a TagIntArray (`k = 4`) / TagLongArray (`k = 8`) -/
+def numOfElem (k : Nat) (x : GoVal) : Res Bytes :=
+  match unwrapIface 64 x with
+  | .int _ v => .ok (beN k (wrapN k v))
+  | _ => .err
+
+/-- one element of a TagList: its own tag must be the list's, then `marshal` -/
+def elemEnc (g : GoVal → Byte × GoVal) (m : GoVal → Byte → Res Bytes) (eleType : Byte) (x : GoVal) : Res Bytes :=
+  let (t, r) := g x
+  if t ≠ eleType then .err else m r t
+
+/-- one entry of a map: `getTagType`, End → error, `writeTag`, `marshal` -/
+def entryEnc (g : GoVal → Byte × GoVal) (m : GoVal → Byte → Res Bytes) (kv : Bytes × GoVal) : Res Bytes :=
+  let (t, r) := g kv.2
+  if t = 0 then .err else
+  match writeTag t kv.1 with
+  | .ok h =>
+    match m r t with
+    | .ok p => .ok (h ++ p)
+    | .err => .err
+    | .panic => .panic
+  | .err => .err
+  | .panic => .panic
+
+/-- one field of a struct (`sv`): skipped (no bytes) behind a nil embedded pointer or when `omitempty` and empty -/
+def fieldEnc (g : GoVal → Byte × GoVal) (m : GoVal → Byte → Res Bytes) (sv : GoVal) (fld : Fld) : Res Bytes :=
+  match walkEnc fld.index sv with
+  | none => .ok []
+  | some fv =>
+    if fld.omitEmpty && isEmptyValue fv then .ok [] else
+    let (t0, r) := g fv
+    if t0 = 0 then .err else
+    let typ : Option Byte :=
+      if fld.asList then (if r.isCarrier then none else if t0 = 7 ∨ t0 = 11 ∨ t0 = 12 then some 9 else none)
+      else some t0
+    match typ with
+    | none => .err                                        -- invalid use of ,list
+    | some t =>
+      match writeTag t fld.name with
+      | .ok h =>
+        match m r t with
+        | .ok p => .ok (h ++ p)
+        | .err => .err
+        | .panic => .panic
+      | .err => .err
+      | .panic => .panic
+
+def resFlatten (r : Res (List Bytes)) (f : Bytes → Bytes) : Res Bytes :=
+  match r with
+  | .ok bs => .ok (f bs.flatten)
+  | .err => .err
+  | .panic => .panic
 
 mutual
-  /-- `e.marshal(val, tag)`: a `Marshaler` writes itself -/
-  partial def marshal (v : GoVal) (tag : Byte) : Res Bytes :=
-    match v with
-    | .raw _ data => .ok data
-    | _ => writeValue v tag
+  /-- `e.marshal(val, tag)` -/
+  def marshal (cx : SnbtCarrier) : Nat → GoVal → Byte → Res Bytes
+    | 0, _, _ => .err
+    | f + 1, v, tag => if v.isCarrier then carrierMarshal cx v else writeValue cx f v tag
   /-- `e.writeValue(val, tag)` -/
-  partial def writeValue (v : GoVal) (tag : Byte) : Res Bytes :=
-    match tag.toNat with
-    | 1 =>
-      match v with
-      | .bool b => .ok [if b then 1 else 0]
-      | .i8 x | .u8 x => .ok [x]
-      | _ => .ok []
-    | 2 => match intOf v with
-      | some i => .ok (beN 2 (wrap 2 i))
-      | none => .panic                                   -- reflect.Value.Int on a non-integer kind
-    | 3 => match intOf v with
-      | some i => .ok (beN 4 (wrap 4 i))
-      | none => .panic
-    | 4 => match intOf v with
-      | some i => .ok (beN 8 (wrap 8 i))
-      | none => .panic
-    | 5 => match v with
-      | .f32 b => .ok (beN 4 (quiet32 b).toNat)
-      | _ => .panic
-    | 6 => match v with
-      | .f64 b => .ok (beN 8 b.toNat)
-      | _ => .panic
-    | 7 =>
-      match v with
-      | .slice elem xs =>
-        let hdr := beN 4 xs.length
-        match elem with
-        | .bool | .u8 | .i8 =>
-          .ok (hdr ++ xs.map fun x => match x with
-            | .bool b => if b then 1 else 0
-            | .i8 y | .u8 y => y
-            | _ => 0)
-        | _ => do
-          let body ← mapM' (fun x => match x with
-            | .bool b => Res.ok (if b then (1 : Byte) else 0)
-            | x => match intOf x with
-              | some i => Res.ok (BitVec.ofNat 8 (wrap 1 i))
-              | none => Res.err) xs
-          pure (hdr ++ body)
-      | _ => .panic                                      -- val.Len() on a non-slice
-    | 11 | 12 =>
-      match v with
-      | .slice _ xs => do
-        let k := if tag.toNat = 11 then 4 else 8
-        let body ← mapM' (fun x => match intOf x with
-          | some i => Res.ok (beN k (wrap k i))
-          | none => Res.err) xs
-        pure (beN 4 xs.length ++ body.flatten)
-      | _ => .panic
-    | 9 =>
-      match v with
-      | .slice elem xs => do
-        let eleType := match xs with
-          | x :: _ => getTagType x
-          | [] => tagOfType elem
-        let body ← mapM' (fun x =>
-          let t := getTagType x
-          if t ≠ eleType then Res.err else marshal x t) xs
-        pure (eleType :: beN 4 xs.length ++ body.flatten)
-      | _ => .panic
-    | 8 =>
-      match v with
-      | .str s => if s.length > 32767 then .err else .ok (beN 2 s.length ++ s)
-      | _ => .panic
-    | 10 =>
-      match v with
-      | .map kvs => do
-        let body ← mapM' (fun (kv : Bytes × GoVal) =>
-          let t := getTagType kv.2
-          if t = 0 then Res.err else do
-            let h ← writeTag t kv.1
-            let p ← marshal kv.2 t
-            pure (h ++ p)) kvs
-        pure (body.flatten ++ [0])
-      | .unit => .ok [0]
-      | .st1 r =>
-        let t := getTagType r
-        if t = 0 then .err else do
-          let h ← writeTag t [0x72]
-          let p ← marshal r t
-          pure (h ++ p ++ [0])
-      | _ => .ok [0]
-    | _ => .err                                          -- "unsupported type"
+  def writeValue (cx : SnbtCarrier) : Nat → GoVal → Byte → Res Bytes
+    | 0, _, _ => .err
+    | f + 1, v, tag =>
+      match tag.toNat with
+      | 1 =>
+        match v with
+        | .bool b => .ok [if b then 1 else 0]
+        | .int .i8 x | .int .u8 x => .ok [BitVec.ofNat 8 (wrapN 1 x)]
+        | _ => .ok []
+      | 2 => match intValue v with
+        | some i => .ok (beN 2 (wrapN 2 i))
+        | none => .panic
+      | 3 => match intValue v with
+        | some i => .ok (beN 4 (wrapN 4 i))
+        | none => .panic
+      | 4 => match intValue v with
+        | some i => .ok (beN 8 (wrapN 8 i))
+        | none => .panic
+      | 5 => match v with
+        | .f32 b => .ok (beN 4 b.toNat)
+        | _ => .panic
+      | 6 => match v with
+        | .f64 b => .ok (beN 8 b.toNat)
+        | _ => .panic
+      | 7 =>
+        match v with
+        | .slice e _ xs | .array e xs =>
+          match e with
+          | .bool | .int .u8 | .int .i8 =>
+            .ok (beN 4 xs.length ++ xs.map fun x => match x with
+              | .bool b => if b then 1 else 0
+              | .int _ y => BitVec.ofNat 8 (wrapN 1 y)
+              | _ => 0)
+          | _ => resFlatten ((resMapM byteOfElem xs).map fun bs => [bs]) (beN 4 xs.length ++ ·)
+        | _ => .panic
+      | 11 =>
+        match v with
+        | .slice _ _ xs | .array _ xs => resFlatten (resMapM (numOfElem 4) xs) (beN 4 xs.length ++ ·)
+        | _ => .panic
+      | 12 =>
+        match v with
+        | .slice _ _ xs | .array _ xs => resFlatten (resMapM (numOfElem 8) xs) (beN 4 xs.length ++ ·)
+        | _ => .panic
+      | 9 =>
+        match v with
+        | .slice e _ xs | .array e xs =>
+          let eleType := match xs with
+            | x :: _ => (getTagType cx f x).1
+            | [] => tagOfType e
+          resFlatten (resMapM (elemEnc (getTagType cx f) (marshal cx f) eleType) xs)
+            (eleType :: beN 4 xs.length ++ ·)
+        | _ => .panic
+      | 8 =>
+        match v with
+        | .str s => if s.length > 32767 then .err else .ok (beN 2 s.length ++ s)
+        | _ => .panic
+      | 10 =>
+        match v with
+        | .struct n fields fs =>
+          resFlatten (resMapM (fieldEnc (getTagType cx f) (marshal cx f) (.struct n fields fs))
+            (typeFields (.struct n fields))) (· ++ [0])
+        | .map _ _ kvs => resFlatten (resMapM (entryEnc (getTagType cx f) (marshal cx f)) kvs) (· ++ [0])
+        | _ => .ok [0]
+      | _ => .err                                          -- "unsupported type"
 end
 
-/-- `Encoder.Encode(v, name)` -/
-def encode (network : Bool) (name : Bytes) (v : GoVal) : Res Bytes :=
-  match v with
-  | .nil => .panic                                       -- reflect.Value.Type on the zero Value (Marshal(nil))
-  | _ =>
-    let t := getTagType v
-    do
-      let h ← (if network then Res.ok [t] else writeTag t name)
-      let p ← marshal v t
-      pure (h ++ p)
+mutual
+  /-- nesting depth of a type (zero values of it) -/
+  def GoType.encFuel : GoType → Nat
+    | .slice e | .array _ e | .map e | .ptr e => e.encFuel + 2
+    | .struct _ fs => GoType.encFuelFields fs + 3
+    | _ => 2
+  def GoType.encFuelFields : List (FieldInfo × GoType) → Nat
+    | [] => 0
+    | (_, t) :: fs => max t.encFuel (GoType.encFuelFields fs)
+end
 
-end GoMC.Model.NBTEnc
+mutual
+  /-- fuel that suffices to encode a value -/
+  def GoVal.encFuel : GoVal → Nat
+    | .slice e _ xs | .array e xs => max e.encFuel (GoVal.encFuelList xs) + 3
+    | .map e _ kvs => max e.encFuel (GoVal.encFuelKvs kvs) + 3
+    | .struct _ fields fs => max (GoType.encFuelFields fields) (GoVal.encFuelList fs) + 4
+    | .ptr e none => e.encFuel + 3
+    | .ptr e (some x) => max e.encFuel x.encFuel + 3
+    | .iface none => 2
+    | .iface (some x) => x.encFuel + 3
+    | _ => 3
+  def GoVal.encFuelList : List GoVal → Nat
+    | [] => 0
+    | x :: xs => max x.encFuel (GoVal.encFuelList xs)
+  def GoVal.encFuelKvs : List (Bytes × GoVal) → Nat
+    | [] => 0
+    | (_, x) :: kvs => max x.encFuel (GoVal.encFuelKvs kvs)
+end
+
+/-- `Encoder.Encode(v, name)`; `v = none` is `Encode(nil, name)` -/
+def encodeF (cx : SnbtCarrier) (fuel : Nat) (network : Bool) (name : Bytes) (v : Option GoVal) : Res Bytes :=
+  match v with
+  | none => .err
+  | some v =>
+    let (t, r) := getTagType cx fuel v
+    match (if network then Res.ok [t] else writeTag t name) with
+    | .ok h =>
+      match marshal cx fuel r t with
+      | .ok p => .ok (h ++ p)
+      | .err => .err
+      | .panic => .panic
+    | .err => .err
+    | .panic => .panic
+
+def encode (cx : SnbtCarrier) (network : Bool) (name : Bytes) (v : Option GoVal) : Res Bytes :=
+  encodeF cx (match v with | some x => 2 * x.encFuel + 8 | none => 0) network name v
+
+end GoMC.Model.Go
